@@ -53,11 +53,21 @@ func containerOf(kind int, r []byte) interface{} {
 		return map[redact.RedactableString]int{rs: 1}
 	case 11:
 		return [1]redact.RedactableString{rs}
+	// reflect.Value operands reached through struct fields: the one from an
+	// unexported field cannot be interfaced
+	case 12:
+		return reflect.ValueOf(rsPriv{rs}).Field(0)
+	case 13:
+		return reflect.ValueOf(rbPriv{redact.RedactableBytes(r)}).Field(0)
+	case 14:
+		return reflect.ValueOf(rbField{redact.RedactableBytes(r)}).Field(0)
 	}
 	panic("containerOf")
 }
 
-const nContainers = 12
+type rbPriv struct{ r redact.RedactableBytes }
+
+const nContainers = 15
 
 // H_c08: re-printing a redactable is the identity, in every container
 // and under every directive.  The surrounding text is obtained from two
